@@ -311,7 +311,7 @@ def checkGrammar (_params : List String) (lines : List String) : CaseResult := I
     | some v => r := { r with specs := violText names v :: r.specs }
     | none => pure ()
     if lost > 0 then
-      r := { r with specs := s!"relay_lost_inner_prefix: {lost} trace(s) of nodes inside a sub-process are used but missing from the process's stream (the first inner traces were sent before the relay subscribed)" :: r.specs }
+      r := { r with specs := s!"relay_lost_inner_prefix: {lost} trace(s) of nodes inside a sub-process are used but missing from the process's stream (the first inner traces were sent before the relay subscribed, or a second relay of the same inner tracer repeated them: two tokens in one sub-process node)" :: r.specs }
   let forks := ts.any (fun t => match t with | .flow _ fs => fs.length ≥ 2 | _ => false)
   return { r with nontrivial := forks }
 
